@@ -6,13 +6,13 @@ LEVEL_TEXT = ("K: has_small_order blocklist membership, the all-zero output test
 TRUSTED = ["CBMC 6.11", "RFC 7748 commutativity X25519(a, X25519(b, 9)) = X25519(b, X25519(a, 9)) (assumed per key pair)",
            "the list of 7 low-order/non-canonical encodings is complete (Bernstein; trusted)"]
 ASSUMPTIONS = []
-OUTSIDE = ["sequencing of the Montgomery ladder (which field operations are applied in which order) and the inversion chain; the field kernels themselves (mul, sq, mul by 121666, add, sub; 51-bit limbs) ARE decided: E2 limb mode, congruence mod 2^255-19 with limb bounds",
+OUTSIDE = ["the composition argument itself (field kernels == ring operations [E2 limb], ladder over ring operations == RFC 7748 for all scalars and u [E2 ring, inductive], cswap / frombytes / tobytes [CBMC], inversion exponent [E2]) is on paper; limb-bound compatibility between consecutive kernels is checked per kernel for limbs <= 2^54, not along the ladder",
            "sandy2x assembly back end", "base-point table contents"]
 
 COMMON = ["sodium/utils.c", "crypto_verify/verify.c"]
 
 
-E2_LIMB = ['fe25519-51-x25519']
+E2_LIMB = ["fe25519-51-x25519", "x25519-ladder-rfc7748", "x25519-invert"]
 
 
 LEVEL_TEXT = LEVEL_TEXT + (" Field kernels (E2 irsym limb mode): the compiled fe25519_mul/sq/mul32/add/sub of the X25519 unit are executed on LLVM IR with limbs as integer polynomials + intervals; "
@@ -45,4 +45,10 @@ def obligations(tier):
                       timeout=1800, mem=8, family="x25519-kernels", nochecks=True, tier="quick" if ti else "thorough",
                       desc="fe25519_frombytes ignores bit 255; tobytes(frombytes(s)) = canonical s mod p (51-bit and 25.5-bit limb builds)",
                       bounds="all 256 input bits"))
+    obs.append(Ob("fe-tobytes-loose", "C05/x25519_k.c", units=COMMON + ["crypto_core/ed25519/ref10/ed25519_ref10.c"], stubs=["misuse.c", "libc.c", "x86_builtins.c"],
+                  defs={"PART": 3}, unwind=40, timeout=1800, mem=8, family="x25519-kernels", nochecks=True,
+                  desc="fe25519_tobytes on arbitrary carried limbs == canonical encoding of the value mod 2^255-19", bounds="all limbs < 2^52"))
+    obs.append(Ob("fe-cswap", "C05/x25519_k.c", units=COMMON + ["crypto_core/ed25519/ref10/ed25519_ref10.c"], stubs=["misuse.c", "libc.c", "x86_builtins.c"],
+                  defs={"PART": 4}, unwind=40, timeout=600, family="x25519-kernels", nochecks=True,
+                  desc="fe25519_cswap exchanges its operands iff the selector is 1", bounds="all 64-bit limbs, selector in {0,1}"))
     return obs
